@@ -57,6 +57,41 @@ def concrete_entry(inp):
     return {"ok": not bad, "detail": "; ".join(bad[:3]), "inputs": inp}
 
 
+def concrete_same_number(inp):
+    """the basis tag decides, not the number: one model object is asked about the number x as a mass fraction and then about the same
+    number as a mole fraction; the second answer must be that of the equivalent mass fraction asked of a fresh object -- a labelled
+    concrete point (a two-call history on one object)"""
+    T, x = inp.get("T") or 333.15, inp.get("x") or 0.3
+    model = inp.get("model", "NRTL")
+    Tp, Pp = inp.get("Tp"), inp.get("Pp")
+    prec = 1e-9
+    bad = []
+    for name in ([inp["mixture"]] if inp.get("mixture") else ["H2O_EtOH", "MeOH_MTBE"]):
+        mix = getattr(Mixtures, name)
+
+        def ask(pz, c):
+            with warnings.catch_warnings():
+                warnings.simplefilter("ignore")
+                j = pz.calculate_partial_fluxes(T, c, prec, Tp, Pp, calculation_type=model)
+                pc = pz.calculate_permeate_composition(T, c, prec, Tp, Pp, model)
+                sf = pz.calculate_separation_factor(T, c, Tp, Pp, prec, model)
+                dc = pz.ideal_diffusion_curve(T, [c], Tp, Pp, prec, model)
+            return {"flux1": j[0], "flux2": j[1], "permeate": pc.p, "separation factor": sf, "curve flux1": dc.partial_fluxes[0][0],
+                    "curve permeance1": dc.permeances[0][0].value}
+        try:
+            shared = Pervaporation(realrun.membrane_for(mix), mix)
+            ask(shared, mixmod.Composition(x, "weight"))
+            got = ask(shared, mixmod.Composition(x, "molar"))
+            want = ask(Pervaporation(realrun.membrane_for(mix), mix), mixmod.Composition(x, "molar").to_weight(mix))
+        except ValueError:
+            continue
+        for k in got:
+            if not close(got[k], want[k], 1e-6):
+                bad.append("%s %s %s: %r for the mole fraction %r asked after the mass fraction %r on the same object, %r for the equivalent mass "
+                           "fraction on a fresh object" % (name, model, k, float(got[k]), x, x, float(want[k])))
+    return {"ok": not bad, "detail": "; ".join(bad[:3]), "inputs": inp}
+
+
 def entry_points(job, mode, model, K):
     job.bound(flux_iterations_K=K, curve_points=1)
     job.stub("GAMMA_i^model(T, x) > 0", "PSAT_i(T) > 0", "PERM_i(T) >= 0")
@@ -123,6 +158,8 @@ def entry_points(job, mode, model, K):
                         lemmas += [lift(p) == lift(q) for p, q in eqs]
             if not got:
                 job.unreached(tag)
+    f = {k: v for k, v in fb[0].items() if k in ("T", "x", "Tp", "Pp", "model", "mixture")}
+    job.refute_concretely("C07/entry/%s/%s/same_number_in_both_bases_on_one_object" % (mode, model), "vf.props.C07:concrete_same_number", f)
 
 
 # ------------------------------------------------------------------------------------------------
